@@ -235,6 +235,104 @@ fn hugeweights(kind: char) -> Scenario {
     Scenario { name, steps: n as u64, viol }
 }
 
+/// A weighted cache that keeps filling after its popularity sketch was sized (at half
+/// full): lookups recorded before must still count when the cache is full, however many
+/// entries it ends up holding. No aging step can happen (a handful of lookups).
+fn sketchgrow(kind: char, regime_beyond: bool, cap: u32) -> Scenario {
+    use mini_moka::sync::ConcurrentCacheExt;
+    let name: &'static str = match (kind, regime_beyond, cap) {
+        ('S', true, 1000) => "sketchgrow:S:beyond:1000",
+        ('S', false, 1000) => "sketchgrow:S:within:1000",
+        ('S', true, _) => "sketchgrow:S:beyond:3000",
+        ('S', false, _) => "sketchgrow:S:within:3000",
+        (_, _, 1000) => "sketchgrow:U:1000",
+        _ => "sketchgrow:U:3000",
+    };
+    let hot = 900_000u32;
+    let looks = 4u8;
+    let mut viol = Vec::new();
+    // (lowest estimate seen after the lookups, table lengths seen, hot admitted?, key 0 still there?, entry_count)
+    let r = with_deadline(60, move || -> (u8, Vec<usize>, bool, bool, u64) {
+        let mut lens: Vec<usize> = Vec::new();
+        let mut low = u8::MAX;
+        if kind == 'S' {
+            let c = sc(cap as u64, true);
+            let clock = c.verif_install_mock_clock();
+            if regime_beyond {
+                clock.advance(Duration::from_millis(1000));
+            }
+            for i in 0..cap / 2 {
+                c.insert(i, 1);
+            }
+            c.sync();
+            for _ in 0..looks {
+                let _ = c.get(&hot);
+            }
+            c.sync();
+            low = low.min(c.verif_estimate(&hot));
+            lens.push(c.verif_snapshot(|k| *k as u64, |v| *v as u64).sketch.table_len);
+            for i in cap / 2..cap {
+                c.insert(i, 1);
+                if i % 25 == 24 {
+                    c.sync();
+                    low = low.min(c.verif_estimate(&hot));
+                    let l = c.verif_snapshot(|k| *k as u64, |v| *v as u64).sketch.table_len;
+                    if lens.last() != Some(&l) {
+                        lens.push(l);
+                    }
+                }
+            }
+            c.sync();
+            low = low.min(c.verif_estimate(&hot));
+            c.insert(hot, 1);
+            c.sync();
+            (low, lens, c.contains_key(&hot), c.contains_key(&0), c.entry_count())
+        } else {
+            let mut c = uc(cap as u64, true);
+            let _clock = c.verif_install_mock_clock();
+            for i in 0..cap / 2 {
+                c.insert(i, 1);
+            }
+            for _ in 0..looks {
+                let _ = c.get(&hot);
+            }
+            low = low.min(c.verif_estimate(&hot));
+            lens.push(c.verif_snapshot(|k| *k as u64, |v| *v as u64).sketch.table_len);
+            for i in cap / 2..cap {
+                c.insert(i, 1);
+                if i % 25 == 24 {
+                    low = low.min(c.verif_estimate(&hot));
+                    let l = c.verif_snapshot(|k| *k as u64, |v| *v as u64).sketch.table_len;
+                    if lens.last() != Some(&l) {
+                        lens.push(l);
+                    }
+                }
+            }
+            low = low.min(c.verif_estimate(&hot));
+            c.insert(hot, 1);
+            (low, lens, c.contains_key(&hot), c.contains_key(&0), c.entry_count())
+        }
+    });
+    match r {
+        None => viol.push(v("C09", "scale:call-did-not-return", format!("{name}: the scenario did not finish within 60 s"), name)),
+        Some(Err(p)) => viol.push(v("C08", "scale:panic", format!("{name}: {}", panic_msg(&p)), name)),
+        Some(Ok((low, lens, hot_in, zero_in, ec))) => {
+            if low < looks {
+                let d = format!("{name}: a key was looked up {looks} times when the weighted cache (capacity {cap}, unit weights) was half full; while the cache filled up its estimate dropped to {low} although no aging step is due (popularity table lengths seen: {lens:?})");
+                viol.push(v("C14", "scale:estimate-dropped-without-aging", d.clone(), name));
+                viol.push(v("C13", "scale:estimate-dropped-without-aging", d, name));
+            }
+            if lens.len() > 1 {
+                viol.push(v("C14", "scale:sketch-reallocated", format!("{name}: the popularity table was allocated again after it had been sized and had recorded lookups: lengths {lens:?}"), name));
+            }
+            if !hot_in || zero_in {
+                viol.push(v("C13", "scale:popular-newcomer-rejected", format!("{name}: full cache of never-read unit-weight entries; a newcomer that was looked up {looks} times must replace the least recently used resident (key 0): newcomer resident = {hot_in}, key 0 resident = {zero_in}, entry_count() = {ec}"), name));
+            }
+        }
+    }
+    Scenario { name, steps: cap as u64 + 10, viol }
+}
+
 pub fn scenarios(filter: &str) -> Vec<Scenario> {
     let mut out = Vec::new();
     let want = |n: &str| filter.is_empty() || n.starts_with(filter) || filter == "all";
@@ -246,6 +344,13 @@ pub fn scenarios(filter: &str) -> Vec<Scenario> {
     if want("invalidate-burst") {
         out.push(invalidate_burst(true));
         out.push(invalidate_burst(false));
+    }
+    if want("sketchgrow") {
+        for cap in [1000u32, 3000] {
+            out.push(sketchgrow('S', true, cap));
+            out.push(sketchgrow('S', false, cap));
+            out.push(sketchgrow('U', true, cap));
+        }
     }
     if want("hugeweights") {
         out.push(hugeweights('S'));
